@@ -764,7 +764,7 @@ def _domains():
     put("ColorFormat", "rgb", vals=[RGBColor(0x12, 0x34, 0x56), RGBColor(0, 0, 0), RGBColor(0xFF, 0xFF, 0xFF), RGBColor(0xAB, 0xCD, 0xEF)])
     put("ColorFormat", "theme_color", vals=[MSO_THEME_COLOR.ACCENT_1, MSO_THEME_COLOR.DARK_2, MSO_THEME_COLOR.HYPERLINK, MSO_THEME_COLOR.TEXT_1])
     put("ColorFormat", "brightness", vals=[-0.25, 0.4, 0, 1.0, -1.0, 0.123, 0], tol=1e-5)
-    put("FillFormat", "gradient_angle", vals=[0.0, 45.0, 90.5, 359.0, 180.0], tol=1 / 60000)
+    put("FillFormat", "gradient_angle", vals=[0.0, 45.0, 90.5, 359.0, 180.0, 0.0, 270.0], tol=1 / 60000, may_refuse=True)  # ValueError for a non-linear gradient
     put("FillFormat", "pattern", vals=[MSO_PATTERN_TYPE.CROSS, MSO_PATTERN_TYPE.WAVE, MSO_PATTERN_TYPE.PERCENT_5, MSO_PATTERN_TYPE.WIDE_UPWARD_DIAGONAL], none=None)
     # values outside the documented domain: refused with ValueError / TypeError, nothing changes
     TOP = 27273042316900
@@ -786,10 +786,35 @@ def _domains():
     for k, v in BAD.items():
         if k in D:
             D[k]["bad"] = v
+    # enumeration-valued properties: every member that has an XML token (the sample above first, for the order of assignments)
+    import enum
+
+    for k, spec in D.items():
+        ms = [v for v in spec["vals"] if isinstance(v, enum.Enum)]
+        if ms:
+            cls = type(ms[0])
+            def own_token(m):
+                try:
+                    return cls.from_xml(m.xml_value) is m  # members sharing a token with another one (known finding F19) cannot read back
+                except Exception:
+                    return False
+
+            rest = [m for m in cls if getattr(m, "xml_value", None) and not any(m is v for v in spec["vals"]) and own_token(m)]
+            spec["vals"] = list(spec["vals"]) + (rest if len(rest) <= 60 else rest[:: max(1, len(rest) // 40)])
+            spec["enum"] = cls
     return D
 
 
 def _same(got, want, tol):
+    # documented equivalences of Font.underline: True is the single underline, False is "none"
+    from pptx.enum.text import MSO_TEXT_UNDERLINE_TYPE as U
+
+    if want is U.SINGLE_LINE and got is True or want is U.NONE and got is False:
+        return True
+    import enum
+
+    if isinstance(want, enum.Enum) or isinstance(got, enum.Enum):
+        return got is want  # an int-valued member equals plain ints and booleans: identity is what "the same member" means
     if isinstance(want, float) or isinstance(got, float):
         if got is None or want is None or isinstance(got, (str, bytes)):
             return got == want
@@ -938,11 +963,15 @@ def _native_setget_sweep(tier="quick", seed=0):
             cls = type(o).__name__
             try:
                 prepare(o, k)
-                first = getattr(o, n)
             except Exception:
+                continue  # the object cannot be brought into the state the property needs
+            try:
+                first = getattr(o, n)
+            except Exception as e:
+                if k[0] == "FillFormat" or k == ("ColorFormat", "brightness"):
+                    # the state the property is documented for has just been established: reading must work
+                    found.setdefault("%s.%s:reading-raises" % (k[0], n), "%s: %s.%s raised %r right after the fill / colour kind it is documented for was selected" % (label, cls, n, e))
                 continue  # property not defined for this object in its present state
-            if k == ("FillFormat", "gradient_angle") and first is None:
-                continue  # not a linear gradient: the setter is documented to refuse
             vals = list(spec["vals"])
             order = vals + list(reversed(vals))
             if "none" in spec:
@@ -1122,6 +1151,12 @@ def _native_setget_sweep(tier="quick", seed=0):
         rec("C09.native.setget[%s]" % sig, wit)
     for lbl, bad in connector_refusal_probes():
         rec("C09.native." + lbl, bad)
+    # connector end points: set / read back over every direction and every crossing (the grid of C17.native_geometry)
+    from .c17 import _native_geometry
+
+    for o in _native_geometry(tier=tier, seed=seed)["obligations"]:
+        if "connector_end_points" in o["name"]:
+            obls.append(dict(o, name=o["name"].replace("C17.", "C09."), base=o["base"].replace("C17.", "C09.")))
     return {"contract": "C09.native_setget_sweep", "prop": "C09", "status": "ok", "obligations": obls, "paths": 0, "assumed": [], "functions": {},
             "notes": [], "solver_s": 0.0, "wall_s": _t.time() - t0,
             "bounded": {"name": "C09.native_setget_sweep", "bound": "%d read/write properties with hand-listed documented domains; every value assigned from two different prior values (forwards and backwards through "
